@@ -538,7 +538,7 @@ def random_walk(rec, st, cfg, rng=None):
     rng = rng or rec.rng
     run = Run(st, *cfg)
     actions = []
-    for _ in range(400):
+    for _ in range(400 + 8 * len(cfg[3]) + 8 * cfg[1]):
         acts = run.enabled()
         if not acts or run.problems:
             break
@@ -560,7 +560,7 @@ def policy_walk(rec, st, cfg, prefs):
     """One schedule chosen by a fixed preference order over the enabled controller actions."""
     run = Run(st, *cfg)
     actions = []
-    for _ in range(600):
+    for _ in range(600 + 8 * len(cfg[3]) + 8 * cfg[1]):
         acts = run.enabled()
         if not acts or run.problems:
             break
@@ -623,6 +623,11 @@ def run(rec):
            for disc in (True, False)
            for script in (('recv', 'send', 'send'), ('recv', 'recv', 'send', 'recv'), ('recv2', 'send', 'recv'),
                           ('send', 'recv', 'send', 'send'), ('rstart', 'rawait', 'send', 'send'), ('recv',) * 3 + ('send', 'close'))]
+    # long sessions: hundreds of messages through a small queue (counters, waiter objects reused many times)
+    for cap in (0, 1, 3):
+        for n in ((150,) if quick else (150, 1200)):
+            big.append((cap, n, True, ('recv',) * (n - 1) + ('send', 'recv', 'recv')))
+            big.append((cap, n, False, ('recv2',) * (n // 2) + ('send', 'close')))
     wrng = __import__('random').Random(99 + rec.shard)
     for i, cfg in enumerate(big):
         if i % rec.nshards != rec.shard:
